@@ -396,7 +396,7 @@ Proof.
   intros G NG ps. induction ps as [|p ps IH]; intros Ips BL p0 nm I0 In0 Nn NK ds rest s toks Nd Fd Hr Es U.
   - apply useq_nil_inv in U. destruct U as [E _]. subst s. destruct ds; [congruence | discriminate].
   - destruct p as [[k fr] nms]. apply useq_cons_inv in U.
-    destruct U as (seg & tok & sp & s1 & toks1 & E & Et & Us & Fs & U). subst s toks.
+    destruct U as (seg & tok & sp & s1 & toks1 & E & Et & Us & Fs & U). rewrite Es in E. symmetry in E. subst toks.
     assert (Ip : In (k, fr, nms) G) by (apply Ips; left; reflexivity).
     assert (Ips' : incl ps G) by (intros q Iq; apply Ips; right; exact Iq).
     destruct Us as [|tok sp' nm' Ut Fs' In'].
@@ -430,7 +430,7 @@ Proof.
       * exfalso. cbn [app] in E.
         assert (sp = []) by (apply (sp_nil sp s1 Fs); rewrite <- E; apply head_digit_app; assumption).
         subst sp. cbn [app] in E.
-        eapply (no_later G NG ps Ips' BL' (k, fr, nms) nm Ip Hi Hn NK (nat_digits c) (render ocs') s1 toks1); eauto.
+        apply (no_later G NG ps Ips' BL' (k, fr, nms) nm Ip Hi Hn NK (nat_digits c) (render ocs') s1 toks1 Nd Fd Hr (eq_sym E) U).
       * destruct (step_present G NG k fr nms ps Ip Ips' BL0 (k, fr, nms) nm Ip Hi Hn tok sp' nm' sp s1 toks1
                     (nat_digits c) (render ocs') Ut Fs' In' Fs U Nd Fd Hr (eq_sym E)) as (E1 & E2 & E3 & _).
         subst tok. f_equal.
@@ -445,12 +445,12 @@ Proof.
         subst sp. cbn [app] in E. subst s1. apply (IH Ips' ND' BL' ocs' V' toks1 U).
       * exfalso.
         assert (Nr : render ocs' <> []).
-        { rewrite E. destruct (utoken_head _ _ Ut) as (a & t & Ea & _). subst tok. discriminate. }
+        { rewrite E. destruct (utoken_head _ _ Ut) as (a & t & Ea & _). subst tok. cbn [app]. discriminate. }
         destruct (render_first ps ocs' V' Nr) as (q & c & nm & ps2 & ocs2 & Iq & Hi & Hn & Hc & Er & V2).
         destruct (nat_digits_spec c Hc) as (Nd & Fd & _).
         pose proof (render_head _ _ V2) as Hr2.
         rewrite Er in E.
         destruct (step_present G NG k fr nms ps Ip Ips' BL0 q nm (Ips' q Iq) Hi Hn tok sp' nm' sp s1 toks1
                     (nat_digits c) (render ocs2) Ut Fs' In' Fs U Nd Fd Hr2 (eq_sym E)) as (_ & _ & _ & Ek).
-        apply NK. change k with (upart_key (k, fr, nms)). rewrite Ek. apply in_map. exact Iq.
+        apply NK. rewrite Ek. apply in_map. exact Iq.
 Qed.
